@@ -27,6 +27,7 @@ type c04Triple struct {
 	typ   uint16
 	class uint16
 	up    int
+	notimp bool // sent with RD=0: an unsupported query, answered NOTIMP by the proxy itself
 }
 
 type c04Run struct {
@@ -169,6 +170,12 @@ func runWorkload(t *rapid.T, run c04Run, st *vfkit.Collector, label string) {
 			fail("response via %s carries question %v, the query asked %s type %d class %d", via, d.Q, sent, tr.typ, tr.class)
 			return
 		}
+		if tr.notimp {
+			if d.Rcode() != 4 {
+				fail("an RD=0 query via %s was answered with rcode %d instead of NOTIMP", via, d.Rcode())
+			}
+			return
+		}
 		if d.Rcode() == 2 {
 			servfail.Add(1)
 			// not a mix-up: counted and reported; the reason is looked up in the proxy log after the run
@@ -204,6 +211,9 @@ func runWorkload(t *rapid.T, run c04Run, st *vfkit.Collector, label string) {
 			addr := fmt.Sprintf("%s:%d", block+"10", ListenerPorts[kind])
 			pick := func() (c04Triple, vfkit.Name) {
 				tr := pool[int(rng.next())%len(pool)]
+				if rng.next()%14 == 0 {
+					tr.notimp = true
+				}
 				return tr, mixCase(tr.name, rng.next())
 			}
 			switch kind {
@@ -227,7 +237,7 @@ func runWorkload(t *rapid.T, run c04Run, st *vfkit.Collector, label string) {
 						tr, nm := pick()
 						id := uint16(done + i + c*4096)
 						batch = append(batch, sentQ{tr, nm, id})
-						u.Send(Query(id, nm, tr.typ, tr.class, rng.next()%2 == 0))
+						u.Send(c04Query(tr, id, nm, tr.typ, tr.class, rng.next()%2 == 0))
 					}
 					for _, s := range batch {
 						r := u.WaitID(s.id, from, 8*time.Second)
@@ -262,7 +272,7 @@ func runWorkload(t *rapid.T, run c04Run, st *vfkit.Collector, label string) {
 						tr, nm := pick()
 						id := uint16(done + i + c*4096)
 						trs[id], names[id] = tr, nm
-						stream = append(stream, frame(Query(id, nm, tr.typ, tr.class, rng.next()%2 == 0))...)
+						stream = append(stream, frame(c04Query(tr, id, nm, tr.typ, tr.class, rng.next()%2 == 0))...)
 					}
 					sc.C.Write(stream)
 					if run.cancelRich && rng.next()%23 == 0 {
@@ -307,7 +317,7 @@ func runWorkload(t *rapid.T, run c04Run, st *vfkit.Collector, label string) {
 					for done := 0; (done < run.perClient || time.Since(runStart) < run.minDuration) && firstErr.Load() == nil; done++ {
 						tr, nm := pick()
 						id := uint16(done + c*4096)
-						res := a.Ask(kind, Query(id, nm, tr.typ, tr.class, rng.next()%2 == 0), 9*time.Second, 0)
+						res := a.Ask(kind, c04Query(tr, id, nm, tr.typ, tr.class, rng.next()%2 == 0), 9*time.Second, 0)
 						if res.Err != nil || len(res.Resps) != 1 {
 							missing.Add(1)
 							continue
@@ -336,7 +346,7 @@ func runWorkload(t *rapid.T, run c04Run, st *vfkit.Collector, label string) {
 					for i := 0; i < w; i++ {
 						tr, nm := pick()
 						id := uint16(done + i + c*4096)
-						q := Query(id, nm, tr.typ, tr.class, rng.next()%2 == 0)
+						q := c04Query(tr, id, nm, tr.typ, tr.class, rng.next()%2 == 0)
 						cut := 1 + int(rng.next())%len(q)
 						pause := time.Duration(rng.next()%3) * time.Millisecond
 						bw.Add(1)
@@ -370,7 +380,7 @@ func runWorkload(t *rapid.T, run c04Run, st *vfkit.Collector, label string) {
 				for done := 0; (done < run.perClient || time.Since(runStart) < run.minDuration) && firstErr.Load() == nil; done++ {
 					tr, nm := pick()
 					id := uint16(done + c*4096)
-					res := a.Ask(kind, Query(id, nm, tr.typ, tr.class, rng.next()%2 == 0), 9*time.Second, 0)
+					res := a.Ask(kind, c04Query(tr, id, nm, tr.typ, tr.class, rng.next()%2 == 0), 9*time.Second, 0)
 					if res.Err != nil || len(res.Resps) != 1 {
 						missing.Add(1)
 						continue
@@ -503,4 +513,13 @@ func TestVfC20Workload(t *testing.T) {
 		}
 		runWorkload(t, run, st, "c20")
 	})
+}
+
+// c04Query builds the query for a triple; an unsupported one (RD=0) when the triple says so.
+func c04Query(tr c04Triple, id uint16, nm vfkit.Name, typ, class uint16, withOPT bool) []byte {
+	q := Query(id, nm, typ, class, withOPT)
+	if tr.notimp {
+		q[2] &^= 0x01
+	}
+	return q
 }
